@@ -26,57 +26,59 @@ theorem c05_int_decode (bs : Bytes) :
     decodeInt .little true bs = twosComplementLE bs ∧
     (∀ s, decodeInt .big s bs = decodeInt .little s bs.reverse) ∧
     (∀ b r, fromLE (b :: r) = b.toNat + 256 * fromLE r) := by
-  sorry
+  exact ⟨Lemmas.decode_unsigned bs, Lemmas.decode_signed bs, fun s => Lemmas.decode_big s bs, fun _ _ => rfl⟩
 
 /-- Encoding then decoding returns the value, for every width, signedness and byte order, and the encoding has exactly
     the width of the type. -/
 theorem c05_int_roundtrip (e : Endian) (n : Nat) (s : Bool) (v : Int) (h : fits n s v = true) :
     ∃ bs, encodeInt e n s v = some bs ∧ bs.length = n ∧ decodeInt e s bs = v := by
-  sorry
+  exact Lemmas.int_roundtrip e n s v h
 
 /-- Decoding then encoding returns the bytes: the codec is a bijection between `n`-byte strings and the values that fit. -/
 theorem c05_int_roundtrip_bytes (e : Endian) (s : Bool) (bs : Bytes) :
     fits bs.length s (decodeInt e s bs) = true ∧ encodeInt e bs.length s (decodeInt e s bs) = some bs := by
-  sorry
+  exact Lemmas.int_roundtrip_bytes e s bs
 
 /-- A value that does not fit is rejected, never truncated or wrapped. -/
 theorem c05_int_reject (e : Endian) (n : Nat) (s : Bool) (v : Int) (h : fits n s v = false) :
     encodeInt e n s v = none := by
-  sorry
+  exact Lemmas.int_reject e n s v h
 
 /-- `fits` is the usual range: [0, 2^(8n)) unsigned, [-2^(8n-1), 2^(8n-1)) signed. -/
 theorem c05_fits_range (n : Nat) (v : Int) :
     (fits n false v = true ↔ 0 ≤ v ∧ v < 2 ^ (8 * n)) ∧
     (fits (n + 1) true v = true ↔ -(2 ^ (8 * n + 7) : Int) ≤ v ∧ v < 2 ^ (8 * n + 7)) := by
-  sorry
+  exact Lemmas.fits_range n v
 
 /-- LEB128, signed: reading what the writer emitted returns the value and consumes exactly the emitted bytes, whatever
     follows — for every integer. -/
 theorem c05_leb_roundtrip_signed (v : Int) (rest : Bytes) :
     lebRead true (lebWriteLoop true v ++ rest) = .ok (v, rest) := by
-  sorry
+  exact Lemmas.leb_roundtrip_read true v rest (fun h => nomatch h)
 
 /-- LEB128, unsigned: the same for every non-negative integer; negative values are refused. -/
 theorem c05_leb_roundtrip_unsigned (v : Int) (rest : Bytes) :
     (0 ≤ v → lebRead false (lebWriteLoop false v ++ rest) = .ok (v, rest)) ∧
     (v < 0 → lebWrite false v = .error .value) := by
-  sorry
+  exact ⟨fun h => Lemmas.leb_roundtrip_read false v rest (fun _ => h), Lemmas.leb_write_neg v⟩
 
 /-- LEB128 structure of the emitted bytes: every byte but the last has the continuation bit, the last does not; the reader
     stops exactly there. In particular the encoding is never empty. -/
 theorem c05_leb_shape (s : Bool) (v : Int) (hv : s = false → 0 ≤ v) :
     ∃ init last, lebWriteLoop s v = init ++ [last] ∧ last.toNat < 128 ∧ ∀ b ∈ init, b.toNat ≥ 128 := by
-  sorry
+  have _ := hv  -- not needed: the shape holds for every input of the loop
+  exact Lemmas.leb_shape s v
 
 /-- LEB128 canonicity: the writer's output is the shortest byte string that the reader decodes to the value
     (any other encoding of the same value is at least as long). -/
 theorem c05_leb_minimal (s : Bool) (v : Int) (hv : s = false → 0 ≤ v) (bs : Bytes)
     (h : lebRead s bs = .ok (v, [])) : (lebWriteLoop s v).length ≤ bs.length := by
-  sorry
+  have _ := hv  -- implied by `h`
+  exact Lemmas.leb_minimal s v bs h
 
 /-- A truncated LEB128 (every byte has the continuation bit) is an end-of-file error, never a value. -/
 theorem c05_leb_truncated (s : Bool) (bs : Bytes) (h : ∀ b ∈ bs, b.toNat ≥ 128) : lebRead s bs = .error .eof := by
-  sorry
+  exact Lemmas.leb_truncated s bs h
 
 def isPow2 (n : Nat) : Bool := n ≠ 0 && n &&& (n - 1) = 0
 
@@ -98,14 +100,14 @@ theorem c05_type_table :
         ("DWORD", .pint 4 false), ("QWORD", .pint 8 false), ("uint32_t", .pint 4 false), ("int64_t", .pint 8 true),
         ("wchar_t", .wchar), ("signed char", .pint 1 true), ("unsigned char", .char)] →
       ∃ n sz al, resolve Gen.typeTable name = .ok (n, k, sz, al)) := by
-  sorry
+  exact ⟨Lemmas.type_table_entries, Lemmas.type_table_names⟩
 
 /-- The endianness tables: `<` is little endian, `>` and `!` are big endian, for integers and for UTF-16 alike. -/
 theorem c05_endian_tables :
     Expr.lookup "<" Gen.endiannessMap = some (some .little) ∧ Expr.lookup ">" Gen.endiannessMap = some (some .big) ∧
     Expr.lookup "!" Gen.endiannessMap = some (some .big) ∧
     (∀ c ∈ ["<", ">", "!"], Expr.lookup c Gen.wcharEncodingMap = Expr.lookup c Gen.endiannessMap) := by
-  sorry
+  exact Lemmas.endian_tables
 
 /-! ### Non-vacuity -/
 example : fits 3 true (-8388608) = true ∧ fits 3 true 8388608 = false := by decide
